@@ -65,6 +65,7 @@ type runner struct {
 	closeC      chan struct{} // signals the closer goroutine
 	roC         chan struct{}
 	closeIssued int32
+	roIssued    int32
 	healed      int32
 	statsMu     sync.Mutex
 	stats       map[string]int
@@ -135,9 +136,11 @@ func (rn *runner) tick() {
 		}
 	}
 	if rn.sc.CloseAt == n {
+		atomic.StoreInt32(&rn.closeIssued, 1)
 		close(rn.closeC)
 	}
 	if rn.sc.SetReadOnly == n {
+		atomic.StoreInt32(&rn.roIssued, 1)
 		close(rn.roC)
 	}
 }
@@ -527,19 +530,30 @@ func runScenario(sc *Scenario) *Outcome {
 	go func() {
 		select {
 		case <-rn.closeC:
-			atomic.StoreInt32(&rn.closeIssued, 1)
-			rn.call(cs, "Close", callClose, false, func() error { return rn.db.Close() })
-			close(closeDone)
 		case <-workDone:
+			select {
+			case <-rn.closeC: // the trigger fired on the last operation
+			default:
+				return
+			}
 		}
+		rn.call(cs, "Close", callClose, false, func() error { return rn.db.Close() })
+		close(closeDone)
 	}()
 	ros := rn.newSlot()
+	roDone := make(chan struct{})
 	go func() {
 		select {
 		case <-rn.roC:
-			rn.call(ros, "SetReadOnly", callSetRO, false, func() error { return rn.db.SetReadOnly() })
 		case <-workDone:
+			select {
+			case <-rn.roC:
+			default:
+				return
+			}
 		}
+		rn.call(ros, "SetReadOnly", callSetRO, false, func() error { return rn.db.SetReadOnly() })
+		close(roDone)
 	}()
 	stopW := make(chan struct{})
 	hangC := make(chan *HangInfo, 1)
@@ -549,6 +563,15 @@ func runScenario(sc *Scenario) *Outcome {
 		if atomic.LoadInt32(&rn.closeIssued) == 1 {
 			select {
 			case <-closeDone:
+			case h := <-hangC:
+				out.Hang = h
+				finish()
+				return out
+			}
+		}
+		if atomic.LoadInt32(&rn.roIssued) == 1 {
+			select {
+			case <-roDone:
 			case h := <-hangC:
 				out.Hang = h
 				finish()
